@@ -71,6 +71,7 @@ def run(ctx, R):
                  "(folds: OR not(at least one element required)); locally_non_binding_filters from the edge's recursion depth")
     R.rule("r4", "EdgeInfo::is_mandatory is true only if not folded-optional, not optional and not recursive")
     R.rule("r5", "fold_requires_at_least_one_element: Included(x) -> x>=1, Excluded(x) -> any, Unbounded/All/Impossible -> false")
+    static_hint_soundness(ctx, R)
 
     # ---------------- r1
     tables = []
@@ -386,3 +387,144 @@ def run(ctx, R):
                 lits = [strip(arm_value(a["body"])) for a in exc]
                 R.check(bool(exc) and not any(x.get("k") == "lit" and x.get("v") is True and False for x in lits), "r5",
                         "range/Excluded", C.loc(bms[0]["sp"]), "Excluded arm missing")
+
+
+# ---- r6: value-level soundness of the static hints ---------------------------------------------------------------------
+def static_hint_soundness(ctx, R):
+    """`candidate_from_statically_evaluated_filters` (what statically_required_property returns) is abstractly evaluated for
+    every single filter and every pair of filters on one property, over the order classes of the operand values, with the
+    field nullable and non-nullable: every value that satisfies all the filters must be a member of the returned candidate
+    (an adapter that prunes by the candidate must not lose a row). fold_requires_at_least_one_element likewise: when it says
+    yes, every count that satisfies the fold's count filters is >= 1."""
+    import itertools
+    from tfv import absint as A
+    from tfv import stdmodel as M
+    from . import C06 as K
+    C = ctx.core
+    IRp = "trustfall_core::ir::"
+    FVp = IRp + "value::FieldValue"
+    R.rule("r6", "value-level soundness: every value satisfying the static filters on a property is a member of the candidate the hint returns")
+    f = C.fn("trustfall_core::interpreter::hints::filters::candidate_from_statically_evaluated_filters")
+    g = C.fn("trustfall_core::interpreter::hints::filters::fold_requires_at_least_one_element")
+    if f is None or g is None:
+        R.fail("r6", "anchor", "-", "candidate_from_statically_evaluated_filters / fold_requires_at_least_one_element not found")
+        return
+    I = M.intrinsics()
+    I.update(K.intrinsics())
+
+    def partition_map(ip, n, a):
+        left, right = [], []
+        for x in M.to_iter(a[0]):
+            e = A.deref(M.call_f(ip, a[1], [x]))
+            (left if e.variant == "Left" else right).append(e.fields[0])
+        return A.Tuple([A.VecV(left), A.VecV(right)])
+    I["itertools::Itertools::partition_map"] = partition_map
+    I["const:" + FVp + "::NULL"] = lambda ip, n, a: K.NULL()
+    I["as_u64"] = lambda ip, n, a: M.some(A.deref(a[0]).rank) if isinstance(A.deref(a[0]), A.Sym) and not A.deref(a[0]).null else M.none()
+    I["core::option::Option::<T>::unwrap_or_default"] = lambda ip, n, a: A.deref(a[0]).fields[0] if A.deref(a[0]).variant == "Some" else 0
+
+    def val(v):
+        if isinstance(v, tuple):
+            return A.Enum(FVp, "List", [A.VecV([K.mk_val(x) for x in v])])
+        return K.mk_val(v)
+
+    def flt(i, op, unary=False):
+        left = A.Sym("subject")
+        if unary:
+            return A.Enum(IRp + "Operation", op, [left])
+        vref = A.Struct(IRp + "VariableRef", {"variable_name": "v%d" % i, "variable_type": A.Sym("ty")})
+        return A.Enum(IRp + "Operation", op, [left, A.Enum(IRp + "Argument", "Variable", [vref])])
+    U = K.UNIVERSE + ["null"]
+
+    def sat(x, op, v):
+        if op == "IsNull":
+            return x == "null"
+        if op == "IsNotNull":
+            return x != "null"
+        if op == "Equals":
+            return x == v
+        if op == "NotEquals":
+            return x != v
+        if op in ("LessThan", "LessThanOrEqual", "GreaterThan", "GreaterThanOrEqual"):
+            if x == "null" or v == "null":
+                return False
+            return {"LessThan": x < v, "LessThanOrEqual": x <= v, "GreaterThan": x > v, "GreaterThanOrEqual": x >= v}[op]
+        if op == "OneOf":
+            return x in v
+        if op == "NotOneOf":
+            return x not in v
+        return True            # operators that produce no candidate: no constraint assumed
+    singles = [("IsNull", None), ("IsNotNull", None)]
+    for op in ("Equals", "NotEquals"):
+        singles += [(op, 2), (op, 4), (op, "null")]
+    for op in ("LessThan", "LessThanOrEqual", "GreaterThan", "GreaterThanOrEqual"):
+        singles += [(op, 2), (op, 4), (op, 6)]
+    singles += [("OneOf", (2, 4)), ("OneOf", (4,)), ("OneOf", ()), ("OneOf", (2, "null")), ("NotOneOf", (4,)), ("NotOneOf", (2, 4)),
+                ("HasPrefix", 4)]
+    sets = [(s,) for s in singles] + list(itertools.combinations(singles, 2)) + [(a, b, c) for a, b, c in itertools.combinations(singles, 3)
+                                                                                   if {a[0], b[0], c[0]} & {"NotEquals", "NotOneOf"}][:400]
+    bad = None
+    n = 0
+    none_n = 0
+    try:
+        for fs in sets:
+            for nullable in (True, False):
+                filters = A.VecV([flt(i, op, v is None) for i, (op, v) in enumerate(fs)])
+                args = M.MapV([("v%d" % i, val(v)) for i, (op, v) in enumerate(fs) if v is not None])
+                ip = A.Interp(C, I, max_steps=200000)
+                res = A.deref(ip.call_fn(f, [M.to_iter(filters), args, nullable]))
+                n += 1
+                if res.variant == "None":
+                    none_n += 1
+                    continue
+                members = K.value_members(res.fields[0])
+                for x in U:
+                    if x == "null" and not nullable:
+                        continue           # a non-nullable field never holds null
+                    if all(sat(x, op, v) for op, v in fs) and x not in members and bad is None:
+                        bad = {"filters": fs, "field_nullable": nullable, "value": x, "candidate": repr(A.deref(res.fields[0]))[:120]}
+    except A.Unsupported as e:
+        R.fail("r6", "unanalysable", C.loc(f["sp"]), "abstract evaluation of the static hint failed: %s (fail closed)" % e)
+        return
+    except A.PanicReached as e:
+        R.fail("r6", "panic", C.loc(f["sp"]), "the static hint panics on well-typed filters: %s" % e.what)
+        return
+    R.floor("r6", "filter sets evaluated", n, 800)
+    R.check(n - none_n > 400, "r6", "non-vacuous", C.loc(f["sp"]), "the hint returned no candidate for almost every filter set (%d of %d)" % (none_n, n))
+    R.check(bad is None, "r6", "static-candidate-contains-every-satisfying-value", C.loc(f["sp"]),
+            "with the filters %s on a %s property, the value %s satisfies all of them but is not in the candidate %s the hint "
+            "returns: an adapter that prunes by this hint loses that row"
+            % (bad and bad["filters"], "nullable" if bad and bad["field_nullable"] else "non-nullable", bad and bad["value"], bad and bad["candidate"]),
+            {"filter_sets": n, "without_candidate": none_n})
+
+    # fold count: "requires at least one element" must be sound
+    badf = None
+    nf = 0
+    count_filters = [(op, v) for op, v in singles if op not in ("IsNull", "IsNotNull", "HasPrefix") and v != "null" and not (isinstance(v, tuple) and "null" in v)]
+    count_filters += [(op, v) for op in ("Equals", "NotEquals", "LessThan", "LessThanOrEqual", "GreaterThan", "GreaterThanOrEqual") for v in (0, 1)]
+    count_filters += [("OneOf", (0, 2)), ("OneOf", (1, 2)), ("NotOneOf", (0,))]
+    counts = [0, 1, 2, 3, 4, 5, 6, 7]
+    try:
+        for fs in [(s,) for s in count_filters] + list(itertools.combinations(count_filters, 2)):
+            post = []
+            for i, (op, v) in enumerate(fs):
+                vref = A.Struct(IRp + "VariableRef", {"variable_name": "v%d" % i, "variable_type": A.Sym("ty")})
+                post.append(A.Enum(IRp + "Operation", op, [A.Enum(IRp + "FoldSpecificFieldKind", "Count"), A.Enum(IRp + "Argument", "Variable", [vref])]))
+            fold = A.Struct(IRp + "IRFold", {"post_filters": A.VecV(post)})
+            args = M.MapV([("v%d" % i, val(v)) for i, (op, v) in enumerate(fs)])
+            ip = A.Interp(C, I, max_steps=200000)
+            says = ip.truth(ip.call_fn(g, [args, fold]))
+            nf += 1
+            if says:
+                for c in counts:
+                    if c == 0 and all(sat(c, op, v) for op, v in fs) and badf is None:
+                        badf = {"count_filters": fs, "satisfying_count": c}
+    except A.Unsupported as e:
+        R.fail("r6", "unanalysable/fold", C.loc(g["sp"]), "abstract evaluation of fold_requires_at_least_one_element failed: %s (fail closed)" % e)
+        return
+    except A.PanicReached as e:
+        R.fail("r6", "panic/fold", C.loc(g["sp"]), "fold_requires_at_least_one_element panics: %s" % e.what)
+        return
+    R.check(badf is None, "r6", "fold-needs-an-element-is-sound", C.loc(g["sp"]),
+            "fold_requires_at_least_one_element answers yes for the count filters %s although a count of 0 satisfies them: the folded edge is "
+            "reported as mandatory and an adapter pruning on it drops rows with an empty fold" % (badf and badf["count_filters"],), {"filter_sets": nf})
